@@ -19,7 +19,10 @@ SOURCES = ['/s/', '/s/t/']
 FOREIGN = [[], [['{http://x/}a', '1']], [['{http://x/}a', '2'], ['{http://y/}b', '']]]
 REPRS = ['plain', 'element', 'parsed']
 
+# how the additional ways of writing an operation read for the reference and the model
+ALIAS = {'ior_item': 'update', 'isub_item': 'discard', 'self_assign': 'read', 'assign_gen': 'read', 'assign_filter': 'discard'}
 OP_KINDS = ['set', 'set1', 'del', 'add', 'remove', 'discard', 'update', 'clear', 'pop', 'set_properties', 'props_setter', 'iadd',
+            'ior_item', 'isub_item', 'self_assign', 'assign_gen', 'assign_filter',
             'set_attachment_dict', 'set_attachment_str', 'set_attachment_list', 'set_attachment_none', 'att_setitem', 'att_delitem',
             'att_del', 'atts_setter', 'set_parents', 'add_parents', 'set_type', 'set_source', 'set_foreign', 'copy', 'read', 'write']
 
@@ -47,7 +50,7 @@ def ref_view(s):
 def ref_apply(states, op):
     """Apply op to the abstract states; returns the value an observer sees for reading ops."""
     s = states[op['on']]
-    k = op['k']
+    k = ALIAS.get(op['k'], op['k'])
     if k in ('set', 'set1'):
         s['props'][op['p']] = set(op['vs'])
     elif k == 'del':
@@ -146,6 +149,18 @@ def apply_real(events, op):
         e[op['p']].update(list(op['vs']))
     elif k == 'iadd':
         e.properties[op['p']] |= set(op['vs'])
+    elif k == 'ior_item':
+        # augmented assignment through the event: reads the object set of the property, updates it, assigns it back
+        e[op['p']] |= set(op['vs'])
+    elif k == 'isub_item':
+        e[op['p']] -= {op['v']}
+    elif k == 'self_assign':
+        e[op['p']] = e[op['p']]
+    elif k == 'assign_gen':
+        # the new value is computed lazily from the current one
+        e[op['p']] = (v for v in e[op['p']])
+    elif k == 'assign_filter':
+        e[op['p']] = filter(lambda v: v != op['v'], e[op['p']])
     elif k == 'clear':
         e[op['p']].clear()
     elif k == 'pop':
@@ -236,9 +251,14 @@ def gen_op(rng, n_objects, state_of, kinds=OP_KINDS):
     on = rng.randrange(n_objects)
     op = {'k': k, 'on': on}
     s = state_of(on)
-    if k in ('set', 'update', 'iadd'):
+    if k in ('set', 'update', 'iadd', 'ior_item'):
         op['p'] = rng.choice(PROPS)
         op['vs'] = rng.sample(VALS, rng.randint(0 if k == 'set' else 1, 3))
+    elif k in ('self_assign', 'assign_gen'):
+        op['p'] = rng.choice(PROPS)
+    elif k in ('isub_item', 'assign_filter'):
+        op['p'] = rng.choice(PROPS)
+        op['v'] = rng.choice(VALS)
     elif k == 'set1':
         op['p'] = rng.choice(PROPS)
         op['vs'] = [rng.choice(VALS)]
@@ -420,7 +440,8 @@ class C07(Property):
     # -- model
     def requests(self, case):
         # for the model, writing is reading: it changes nothing
-        return [{'op': 'evops', 'initial': case['initial'], 'ops': [dict(op, k='read') if op['k'] == 'write' else op for op in case['ops']]}]
+        return [{'op': 'evops', 'initial': case['initial'],
+                 'ops': [dict(op, k='read') if op['k'] == 'write' else dict(op, k=ALIAS.get(op['k'], op['k'])) for op in case['ops']]}]
 
     def predict(self, case, replies):
         # the model answers the abstract view and the XML view of every live object after every operation
